@@ -26,14 +26,18 @@ in the generated-facts block; the translator never guesses):
               signed value); uninitialised local `uint8_t a[n]` arrays (a byte
               object whose elements hold no value until stored: reading one is
               CUB, indexing outside is COob; never passed to a function);
-              `T *` parameters for a scalar T (ONE object of type T)
+              `T *` parameters for a non-byte scalar T: ONE object of type T,
+              unless the function subscripts the parameter or does arithmetic
+              on it, in which case it is an array of T (a `list Z`, index
+              checked: COob outside)
   expressions integer/char literals, enum constants, file-scope `const` integer
               variables with a constant initialiser, parentheses, implicit and
               explicit integral casts, + - * / % << >> & | ^ ~ unary -,
               < <= > >= == != ! && || ?:, sizeof of a scalar type/expression
               (the source is read as the pinned build compiles it: -DNDEBUG),
               reads of locals/parameters, p[i] and *p on byte pointers, *p on
-              scalar pointers, p + i / p - i / &p[i] / p - q on byte pointers,
+              scalar pointers, p + i / p - i / &p[i] / p - q / p < q (same object)
+              on byte pointers,
               &local
   effects     `x = e`, `x op= e`, `++x` `x++` `--x` `x--` (integers and byte
               pointer locals), `p[i] = e`, `p[i++] = e`, `*p = e`, `*p++ = e`,
@@ -54,6 +58,8 @@ in the generated-facts block; the translator never guesses):
                 from index k on — an index below k is then COob in the callee,
                 which is conservative — and a writing callee's view is put back
                 with `c_unview`),
+              * a function of ANOTHER translated file (`imports`) is called through
+                that file's `src_<g>` (coq/gen/Src_<other>.v is imported),
               * cond ? a : b whose arms contain such calls (condition call-free),
               * memcpy(p, &x, sizeof x) between two scalar objects of the same
                 type is the assignment *p = x,
@@ -165,11 +171,12 @@ class Ctx:
     `break` / `continue` do; stack: the functions being inlined at this point;
     value(env, name): the function's result value (None inside an inlined callee)"""
 
-    def __init__(self, kret, kbreak, kcont, stack, value):
+    def __init__(self, kret, kbreak, kcont, stack, value, wrap=None):
         self.kret, self.kbreak, self.kcont, self.stack, self.value = kret, kbreak, kcont, stack, value
+        self.wrap = wrap or (lambda v: "COk " + v)    # how a ready-made result value leaves the current construct
 
     def but(self, **kw):
-        c = Ctx(self.kret, self.kbreak, self.kcont, self.stack, self.value)
+        c = Ctx(self.kret, self.kbreak, self.kcont, self.stack, self.value, self.wrap)
         for k, v in kw.items():
             setattr(c, k, v)
         return c
@@ -191,6 +198,8 @@ class Translator:
         self.buf_const = {}   # bufkey -> the parameter is a pointer to const
         self.locals = set()   # ids of the variables declared inside the function being translated
         self.buf_arr = {}     # bufkey -> True for a local byte array (elements may hold no value)
+        self.buf_z = {}       # bufkey -> element type of an array of scalars (`uint64_t *` parameter that is indexed)
+        self.imports = {}     # function of another translated file -> (module, signature)
         self.rty = "unit"
         self.probe_typedefs()
 
@@ -340,6 +349,11 @@ class Translator:
                     raise Untranslatable("left operand of %s not of the result type" % op)
                 self.ity(b)
                 return "(%s %s %s %s)" % ("c_shl" if op == "<<" else "c_shr", t, self.expr(a, env), self.expr(b, env))
+            if op in CMP and self.is_ptr(a) and self.is_ptr(b):
+                pa, pb = self.ptr(a, env), self.ptr(b, env)
+                if pa[0] != "bytes" or pb[0] != "bytes" or pa[1] != pb[1]:
+                    raise Untranslatable("comparison of pointers into different objects")
+                return "(%s %s %s)" % (CMP[op], pa[2] or "(COk 0)", pb[2] or "(COk 0)")
             if op in CMP:
                 if self.ity(a) != self.ity(b) or self.ity(n) != "TS32":
                     raise Untranslatable("comparison %s of operands of different types" % op)
@@ -414,6 +428,10 @@ class Translator:
             return self.cell_read(env, v[1])
         p = self.lvalue_ptr(n, env)
         if p[0] == "bytes":
+            if p[1] in self.buf_z:
+                if self.ity(n) != self.buf_z[p[1]]:
+                    raise Untranslatable("array element read through an lvalue of another type")
+                return "(c_zload %s %s)" % (env.bufs[p[1]], p[2] or "(COk 0)")
             ld = "(%s %s %s)" % ("c_aload" if self.buf_arr.get(p[1]) else "c_load", env.bufs[p[1]], p[2] or "(COk 0)")
             if self.ity(n) == "TS8":          # the byte read through an lvalue of type signed char / int8_t
                 return "(c_cast TU8 TS8 %s)" % ld
@@ -507,7 +525,10 @@ class Translator:
         return any(self.effectful(c) for c in n.get("inner", []) if isinstance(c, dict))
 
     def st(self, bufkey):
-        return "c_astore" if self.buf_arr.get(bufkey) else "c_store"
+        return "c_zstore" if bufkey in self.buf_z else "c_astore" if self.buf_arr.get(bufkey) else "c_store"
+
+    def elem(self, bufkey):
+        return self.buf_z.get(bufkey, "TU8")
 
     def modified(self, n):
         """ids of the variables that n assigns, increments or decrements directly"""
@@ -647,11 +668,13 @@ class Translator:
         op = n["opcode"][:-1]
         v = self.ptrvar(lhs, env)
         if v:
-            if op not in ("+", "-") or self.effectful(rhs):
+            if op not in ("+", "-"):
                 raise Untranslatable("compound assignment %s on a pointer" % n["opcode"])
             self.ity(rhs)
-            return self.move(v, env, "(%s %s %s)" % ("c_padd" if op == "+" else "c_psub", self.cell_read(env, v[2]),
-                                                     self.expr(rhs, env)), lambda e2: k(e2, None))
+            # the pointer is read after the right operand has been evaluated (a call may take it as argument)
+            return self.rhs(rhs, env, lambda e2, r: self.move(
+                v, e2, "(%s %s (COk %s))" % ("c_padd" if op == "+" else "c_psub", self.cell_read(e2, v[2]), r),
+                lambda e3: k(e3, None)), ctx, "n")
         t, cl, cr = self.ity(lhs), self.ty(n["computeLHSType"]), self.ty(n["computeResultType"])
         if cl[0] != "int" or cr != cl or self.effectful(rhs):
             raise Untranslatable("compound assignment %s of this shape" % n["opcode"])
@@ -671,7 +694,7 @@ class Translator:
         p = self.lvalue_ptr(lhs, env)
         nm = self.fresh("v_", lhs["referencedDecl"]["name"] if lhs["kind"] == "DeclRefExpr" else "a")
         if p[0] == "bytes":
-            if self.ity(lhs) != "TU8" or self.buf_const.get(p[1]):
+            if self.ity(lhs) != self.elem(p[1]) or self.buf_const.get(p[1]):
                 raise Untranslatable("store through a pointer to const / of a non-byte through a byte pointer")
             m = self.fresh("m_", "")
             e = env.copy()
@@ -725,7 +748,7 @@ class Translator:
 
             def at(e2, r):
                 p = self.padd(self.ptr(a, e2), "c_padd", "(COk %s)" % r)
-                if p[0] != "bytes" or self.ity(lhs) != "TU8" or self.buf_const.get(p[1]):
+                if p[0] != "bytes" or self.ity(lhs) != self.elem(p[1]) or self.buf_const.get(p[1]):
                     raise Untranslatable("store through a pointer to const / of a non-byte")
                 m = self.fresh("m_", "")
                 e3 = e2.copy()
@@ -734,7 +757,7 @@ class Translator:
             return self.rhs(b, env, at, ctx, "i")
         p = self.lvalue_ptr(lhs, env)
         if p[0] == "bytes":
-            if self.ity(lhs) != "TU8" or self.effectful(rhs) or self.buf_const.get(p[1]):
+            if self.ity(lhs) != self.elem(p[1]) or self.effectful(rhs) or self.buf_const.get(p[1]):
                 raise Untranslatable("store through a byte pointer of a non-byte / of a value with effects / to const")
             m = self.fresh("m_", "")
             e = env.copy()
@@ -965,7 +988,7 @@ class Translator:
             if ctx.value is None:
                 raise Untranslatable("return inside a loop of an inlined function")
             return "COk (LRet %s)" % ctx.value(e, r)
-        lctx = ctx.but(kret=ret, kbreak=brk)
+        lctx = ctx.but(kret=ret, kbreak=brk, wrap=lambda v: "COk (LRet %s)" % v)
         e_in, pat = names(env)
 
         def after_body(e):
@@ -987,7 +1010,7 @@ class Translator:
         return self.bind(l, "c_while (R:=%s) v_fuel\n%s\n%s" % (self.rty if ctx.value else "unit", indent(blk(fn + "\n" + indent(step))),
                                                                  indent(pack(env))),
                          "match %s with\n| LRet r => %s\n| LNext %s | LBreak %s =>\n%s\nend" % (
-                             l, "COk r" if ctx.value else "CUB UB_no_return", tup(pat2, "_"), tup(pat2, "_"), indent(k(e_out))))
+                             l, ctx.wrap("r") if ctx.value else "CUB UB_no_return", tup(pat2, "_"), tup(pat2, "_"), indent(k(e_out))))
 
     # ------------------------------------------------------------ calls
     def call(self, n, env, k, ctx):
@@ -1006,6 +1029,8 @@ class Translator:
         if m:
             return self.overflow(m, args, env, k)
         d = self.ast(name)
+        if d is None and name in self.imports:
+            return self.call_src(name, args, env, k)
         if d is None:
             raise Untranslatable("call to %s, which is not defined in this file" % name)
         if d.get("storageClass") == "static":
@@ -1092,7 +1117,7 @@ class Translator:
 
     def check_ptr(self, v, t, env):
         if v[0] == "bytes":
-            if t[2] != ("int", "TU8") or self.buf_arr.get(v[1]):
+            if t[2] != ("int", self.elem(v[1])) or self.buf_arr.get(v[1]):
                 raise Untranslatable("byte pointer passed as a pointer to another type / local array passed to a function")
             if self.buf_const.get(v[1]) and not t[1]:
                 raise Untranslatable("pointer to const passed as a pointer to non-const")
@@ -1100,11 +1125,14 @@ class Translator:
             raise Untranslatable("pointer to an object passed as a pointer to another type")
 
     def call_src(self, name, args, env, k):
-        self.function(name)
-        info = self.done[name]
-        if "error" in info:
-            raise Untranslatable("calls %s, which is not translated" % name)
-        sig = info["sig"]
+        if name in self.imports:
+            sig = self.imports[name][1]
+        else:
+            self.function(name)
+            info = self.done[name]
+            if "error" in info:
+                raise Untranslatable("calls %s, which is not translated" % name)
+            sig = info["sig"]
         if len(sig["params"]) != len(args):
             raise Untranslatable("arity of %s" % name)
         binds, actual, outs, seen, splices, e = [], [], [], set(), [], env.copy()
@@ -1121,12 +1149,16 @@ class Translator:
                 continue
             v = self.ptr(a, env)
             self.check_ptr(v, ("ptr", pconst, ("int", pt)), env)
+            if (pk == "cell") != (v[0] == "cellptr"):
+                raise Untranslatable("array passed where one object is expected, or the reverse")
             if v[1] in seen:
                 raise Untranslatable("two pointer arguments to the same object")
             seen.add(v[1])
             if v[0] == "bytes" and v[2] is not None:      # p + k: the callee sees the object from index k on
                 off, view = self.fresh("v_", "off"), self.fresh("m_", "view")
                 binds.append((off, v[2]))
+                if v[1] in self.buf_z:
+                    raise Untranslatable("offset pointer into an array of scalars passed to a function")
                 binds.append((view, "(c_view %s (COk %s))" % (env.bufs[v[1]], off)))
                 actual.append(view)
                 if not pconst:
@@ -1136,7 +1168,7 @@ class Translator:
             elif v[0] == "bytes":
                 actual.append(env.bufs[v[1]])
                 if not pconst:
-                    nm = self.fresh("m_", "")
+                    nm = self.fresh("a_" if v[1] in self.buf_z else "m_", "")
                     e.bufs[v[1]] = nm
                     outs.append(nm)
             else:
@@ -1167,8 +1199,8 @@ class Translator:
             return
         if fn in self.active:
             raise Untranslatable("recursion through %s" % fn)
-        saved = (self.n, self.fuel, self.rty, self.buf_const, self.buf_arr)
-        self.n, self.fuel, self.buf_const, self.buf_arr = 0, False, {}, {}
+        saved = (self.n, self.fuel, self.rty, self.buf_const, self.buf_arr, self.buf_z)
+        self.n, self.fuel, self.buf_const, self.buf_arr, self.buf_z = 0, False, {}, {}, {}
         self.active.append(fn)
         try:
             d = self.ast(fn)
@@ -1180,7 +1212,7 @@ class Translator:
             self.done[fn] = {"error": str(e)}
         self.active.pop()
         self.order.append(fn)
-        self.n, self.fuel, self.rty, self.buf_const, self.buf_arr = saved
+        self.n, self.fuel, self.rty, self.buf_const, self.buf_arr, self.buf_z = saved
 
     def scan_globals(self, fn, d):
         """non-const variables with static storage duration the function refers to"""
@@ -1212,10 +1244,39 @@ class Translator:
         if s not in self.globals_read:
             self.globals_read.append(s)
 
+    def indexed(self, d):
+        """ids of the pointer parameters / variables that the function subscripts or does arithmetic on"""
+        out = set()
+
+        def base(n):
+            while n.get("kind") in ("ParenExpr", "ImplicitCastExpr", "CStyleCastExpr"):
+                n = n["inner"][0]
+            if n.get("kind") == "DeclRefExpr":
+                out.add(n["referencedDecl"]["id"])
+
+        def walk(n):
+            k = n.get("kind")
+            if k == "ArraySubscriptExpr" or (k == "BinaryOperator" and n["opcode"] in ("+", "-") and self.is_ptr_safe(n)):
+                for c in n["inner"]:
+                    if self.is_ptr_safe(c):
+                        base(c)
+            for c in n.get("inner", []):
+                if isinstance(c, dict):
+                    walk(c)
+        walk(d)
+        return out
+
+    def is_ptr_safe(self, n):
+        try:
+            return "type" in n and self.is_ptr(n)
+        except Untranslatable:
+            return False
+
     def signature(self, d):
         """Coq parameters, result components and initial environment from the prototype"""
         ps, rt = self.params(d), self.ret_type(d)
         moved = set(self.modified(d))                   # parameters the body itself advances (p++, p += n, p = p + 1)
+        indexed = self.indexed(d)                       # `T *` parameters used as arrays
         if rt[0] == "ptr":
             raise Untranslatable("pointer return type")
         env, coq_params, sig_params, outs = Env(), [], [], []
@@ -1240,6 +1301,16 @@ class Translator:
                 sig_params.append(("bytes", "TU8", t[1], p["name"]))
                 if not t[1]:
                     outs.append(("bytes", p["id"]))
+            elif t[0] == "ptr" and t[2][0] == "int" and p["id"] in indexed:
+                nm = "a_" + p["name"]
+                env.vars[p["id"]] = ("bytes", p["id"], None)
+                env.bufs[p["id"]] = nm
+                self.buf_const[p["id"]] = t[1]
+                self.buf_z[p["id"]] = t[2][1]
+                coq_params.append("(%s : list Z)" % nm)
+                sig_params.append(("zarr", t[2][1], t[1], p["name"]))
+                if not t[1]:
+                    outs.append(("zarr", p["id"]))
             elif t[0] == "ptr" and t[2][0] == "int":
                 nm = "p_" + p["name"]
                 key = "*" + p["id"]
@@ -1251,7 +1322,7 @@ class Translator:
                     outs.append(("cell", key))
             else:
                 raise Untranslatable("parameter %s of type %s" % (p["name"], p["type"]["qualType"]))
-        comps = (["Z"] if rt != ("void",) else []) + ["list N" if o[0] == "bytes" else "option Z" for o in outs]
+        comps = (["Z"] if rt != ("void",) else []) + [{"bytes": "list N", "zarr": "list Z"}.get(o[0], "option Z") for o in outs]
         return env, coq_params, sig_params, outs, rt, " * ".join(comps) if comps else "unit"
 
     def function1(self, fn, d):
@@ -1263,7 +1334,7 @@ class Translator:
                 raise Untranslatable("return with/without a value")
             xs = [r] if r is not None else []
             for (kind, key) in outs:
-                if kind == "bytes":
+                if kind in ("bytes", "zarr"):
                     xs.append(e.bufs[key])
                 else:
                     st = e.cells[key][1]
@@ -1318,7 +1389,10 @@ class Translator:
         return txt
 
 
-def translate_file(repo, cfile, functions, module, outdir, wrappers=""):
+SIGS = {}    # module -> {function: signature}, filled as the files are translated
+
+
+def translate_file(repo, cfile, functions, module, outdir, wrappers="", imports=()):
     """Write <outdir>/Src_<module>.v; return the entry for the generated-facts block.
     `wrappers`: C text of tiny functions q_<macro>(…) { <macro>(…); } through which
     function-like macros of the header are translated after expansion; it is
@@ -1332,12 +1406,17 @@ def translate_file(repo, cfile, functions, module, outdir, wrappers=""):
         functions = functions + re.findall(r"\b(q_\w+)\s*\(", wrappers)
     else:
         tr = Translator(repo, cfile)
+    for m in imports:
+        for fn, sig in SIGS.get(m, {}).items():
+            tr.imports[fn] = (m, sig)
     for fn in functions:
         tr.function(fn)
+    SIGS[module] = {fn: tr.done[fn]["sig"] for fn in tr.order if "sig" in tr.done[fn]}
     lines = ["(* generated by gen/c2coq.py from src/%s — do not edit.  One definition src_<f> per" % cfile,
              "   translated C function (CSem.v gives the meaning of every c_* operation); a function the",
              "   translator does not fully understand appears as src_<f>_UNTRANSLATED instead. *)",
-             "Require Import VV.Base VV.CSem.", "From Coq Require Import String.",
+             "Require Import VV.Base VV.CSem.", "From Coq Require Import String."] + [
+                 "Require Import VVgen.Src_%s." % m for m in imports] + [
              "Local Open Scope Z_scope.", "Local Open Scope csem_scope.", ""]
     ok, bad = [], {}
     for fn in tr.order:
@@ -1393,10 +1472,15 @@ uint8_t q_varintChained_putVarint32(uint8_t *A, uint32_t B) { return varintChain
 """
 
 
+RLE_FUNCTIONS = ["varintRLEDecodeRun", "varintRLEDecode", "varintRLEDecodeWithHeader", "varintRLEGetAt",
+                 "varintRLEGetCount", "varintRLEGetRunCount"]
+
+
 def regenerate(repo, outdir):
     info = translate_file(repo, "varintTagged.c", TAGGED_FUNCTIONS, "tagged", outdir, TAGGED_WRAPPERS)
     info.update(translate_file(repo, "varintChainedSimple.c", CSIMPLE_FUNCTIONS, "csimple", outdir))
     info.update(translate_file(repo, "varintChained.c", CHAINED_FUNCTIONS, "chained", outdir, CHAINED_WRAPPERS))
+    info.update(translate_file(repo, "varintRLE.c", RLE_FUNCTIONS, "rle", outdir, imports=("tagged",)))
     return info
 
 
